@@ -144,7 +144,7 @@ PAR_RULE = ("a run = one seeded LRA history (NET generator, LRA profile, extra r
             "policy canonical / uniformly random / sticky random, pool sizes 1-4 (8 thorough), faults: spurious wake-ups, late worker start, lost races for a mutex; "
             "reference = observation log of the same history on the PARALLELIZE=OFF build; non-trivial = at least two worker threads executed pivot tasks and at least two were busy at the same time; "
             "distinct = distinct (history, schedule decisions) hash")
-PROPS["C20"] = {"engine": "par", "configs": {"quick": ["par"], "thorough": ["par"]}, "budget": {"quick": 45, "thorough": 900}, "jobs": par_jobs, "minimise": True,
+PROPS["C20"] = {"engine": "par", "configs": {"quick": ["par"], "thorough": ["par"]}, "budget": {"quick": 45, "thorough": 900}, "jobs": par_jobs, "minimise": True, "reference_config": "seq",
                 "run_kv": {}, "level": "exploration", "rule": PAR_RULE,
                 "components": {"real": ["smt::sat_core", "smt::lra_theory (PARALLELIZE=ON, -fsanitize=thread instrumentation)", "smt::thread_pool (libconcurrent)", "libstdc++ std::thread / std::mutex / std::condition_variable"],
                                "stub": ["pthread_mutex_*/pthread_cond_*/pthread_create/pthread_join/get_nprocs are interposed by the scheduler (the real primitives are never blocked on)", "the TSan runtime is replaced by the engine's own happens-before detector"],
